@@ -41,6 +41,14 @@ theorem spec_unique (E : Nat → Sig → Env) (o : ImfOpts) (x : Sig) (r : Outco
     (h : Spec E o x r) : r = run E o x :=
   spec_det E o x r (run E o x) h (run_spec E o x)
 
+/-- Bounded by the configured limit: whatever is returned was found at an iterate index ≤ max_iters
+    (at most max_iters+1 mean-envelope evaluations; exactly index max_iters−1 for `fixed`, see `fixed_count`). -/
+theorem exit_within_limit (E : Nat → Sig → Env) (o : ImfOpts) (x : Sig) (k : Nat) (c : Sig)
+    (hr : run E o x = .stopped k c ∨ run E o x = .noExtrema k c) : k ≤ o.maxIters := by
+  have hs := run_spec E o x
+  have hb : budget o ≤ o.maxIters + 1 := by unfold budget; split <;> omega
+  rcases hr with hr | hr <;> rw [hr] at hs <;> have := hs.1 <;> omega
+
 /-- The returned IMF has the FULL envelope mean removed (not `step·mean`), whatever the step size. -/
 theorem stopped_full_mean (E : Nat → Sig → Env) (o : ImfOpts) (x : Sig) (k : Nat) (c : Sig)
     (hr : run E o x = .stopped k c) :
